@@ -148,8 +148,7 @@ def handle (op : String) (args : List String) : String :=
   | "check", [o, n] =>
     match parseSchema o, parseSchema n with
     | some os, some ns =>
-      if !(wfSchema os && wfSchema ns) then "nowf"
-      else if (layout os).oof || (layout ns).oof then "fuel"
+      if (layout os).oof || (layout ns).oof then "fuel"
       else verdictStr (lintCore os ns)
     | _, _ => "bad-op"
   | _, _ => "bad-op"
